@@ -15,8 +15,8 @@ from .tlc import run_tlc
 from .common import MachineryError
 
 CONSTS = ['W', 'Scal', 'Vecs', 'Mats', 'LeafSet', 'UnSet', 'BinSet', 'MaxSteps', 'MaxHeight']
-PROFILE_W = {'R': [1.0, 1.0], 'RW': [2.0, 0.5], 'C': [1.0, 1.0]}
-PROFILE_WQ = {'R': [[1, 1], [1, 1]], 'RW': [[2, 1], [1, 2]], 'C': [[1, 1], [1, 1]]}
+PROFILE_W = {'R': [1.0, 1.0], 'RW': [2.0, 0.5], 'C': [1.0, 1.0], 'M': [1.0, 1.0]}
+PROFILE_WQ = {'R': [[1, 1], [1, 1]], 'RW': [[2, 1], [1, 2]], 'C': [[1, 1], [1, 1]], 'M': [[1, 1], [1, 1]]}
 TILE = 60
 
 
@@ -50,7 +50,7 @@ class Spaces(object):
 
     def __init__(self, profile, big=False, dtype=None):
         self.profile, self.big = profile, big
-        cplx = profile == 'C'
+        cplx = profile in ('C', 'M')
         self.n = 2 * TILE if big else 2
         self.tile = TILE if big else 1
         w = np.array(PROFILE_W[profile])
@@ -64,13 +64,17 @@ class Spaces(object):
         else:
             self.V = odl.tensor_space(2, dtype=dt)
         self.S = self.V.field
+        self.VR = self.V.real_space if cplx else self.V       # profile M: the real space next to the complex one
 
-    def vec(self, v, arith=False):
+    def vec(self, v, arith=False, space=None):
         """abstract value (list of C json) -> element of V (tiled).  arith=True: the element is an operand of one of the
         arithmetic overloads (v * A, A * v, A + v, ...); those objects are remembered in self.arith (the caller may
         later hand one of them to the expression as `out`)."""
         arr = np.array([cnum_to_py(c) for c in v], dtype=self.dtype)
-        el = self.V.element(np.tile(arr, self.tile))
+        if space is not None and space == self.VR and space != self.V:
+            el = self.VR.element(np.tile(arr.real, self.tile))      # an operand on the real side (typed real by OpSem)
+        else:
+            el = self.V.element(np.tile(arr, self.tile))
         if arith:
             if not hasattr(self, 'arith'):
                 self.arith = []
@@ -86,6 +90,8 @@ class Spaces(object):
     def point(self, sp, v):
         if sp == 'V':
             return self.vec(v)
+        if sp == 'VR':
+            return self.vec(v, space=self.VR)
         z = cnum_to_py(v[0])
         return complex(z) if self.profile == 'C' else float(z)
 
@@ -160,6 +166,10 @@ def build(e, sp, subst=None, matmul=False):
         return SwapOp(V)
     if t == 'rpart':
         return odl.RealPart(V)
+    if t == 'cmod2':
+        return odl.ComplexModulusSquared(V)
+    if t == 'sqr':
+        return odl.PowerOperator(sp.VR, 2)
     if t == 'linfn':
         return odl.solvers.FunctionalQuadraticPerturb(odl.solvers.ZeroFunctional(V), linear_term=sp.vec(e['v']))
     if t == 'id':
@@ -205,17 +215,17 @@ def build(e, sp, subst=None, matmul=False):
     if t == 'addscal':
         return A + sp.scalar(e['a'])
     if t in ('lvec', 'flvm'):
-        return (sp.vec(e['v'], True) @ A) if matmul else (sp.vec(e['v'], True) * A)
+        return (sp.vec(e['v'], True, A.range) @ A) if matmul else (sp.vec(e['v'], True, A.range) * A)
     if t == 'rvec':
-        return (A @ sp.vec(e['v'], True)) if matmul else (A * sp.vec(e['v'], True))
+        return (A @ sp.vec(e['v'], True, A.domain)) if matmul else (A * sp.vec(e['v'], True, A.domain))
     if t == 'addvec':
-        return A + sp.vec(e['v'], True)
+        return A + sp.vec(e['v'], True, A.range)
     if t == 'raddvec':
-        return sp.vec(e['v'], True) + A
+        return sp.vec(e['v'], True, A.range) + A
     if t == 'rsubvec':
-        return sp.vec(e['v'], True) - A
+        return sp.vec(e['v'], True, A.range) - A
     if t == 'subvec':
-        return A - sp.vec(e['v'], True)
+        return A - sp.vec(e['v'], True, A.range)
     if t == 'pow':
         return A ** e['n']
     raise ValueError(t)
@@ -255,7 +265,7 @@ def leaf_kinds(e):
 
 def has_nonlinear_leaf(e):
     if not e['l']:
-        return e['t'] in ('sq', 'const', 'shift', 'l2sq', 'l1')
+        return e['t'] in ('sq', 'const', 'shift', 'l2sq', 'l1', 'cmod2', 'sqr')
     return has_nonlinear_leaf(e['l']) or (bool(e['r']) and has_nonlinear_leaf(e['r']))
 
 
@@ -265,4 +275,8 @@ def den_of(obj):
 
 
 def space_name(sp, s):
-    return 'V' if s == sp.V else ('S' if s == sp.S else 'other')
+    if s == sp.V:
+        return 'V'
+    if s == sp.S:
+        return 'S'
+    return 'VR' if s == getattr(sp, 'VR', None) else 'other'
